@@ -108,10 +108,23 @@ func c13IsMarker(kind int) bool {
 
 func c13Val(kind int, base time.Time, r time.Duration, salt int) []byte {
 	ts := c13TS(kind, base, r)
-	if c13IsMarker(kind) {
-		return model.BuildHeader(ts, 3, 1, nil, nil)
+	// a header may carry 8-byte extension blocks (Lightning Stream itself writes one with the padding option), and a
+	// native application may leave bytes behind the header of an entry it flags as deleted: "any database contents"
+	var ext []byte
+	switch salt % 7 {
+	case 3:
+		ext = make([]byte, 8)
+	case 5:
+		ext = make([]byte, 24)
 	}
-	return model.BuildHeader(ts, 3, 0, nil, []byte(fmt.Sprintf("v%d", salt)))
+	if c13IsMarker(kind) {
+		var left []byte
+		if salt%11 == 6 {
+			left = []byte("left-over payload of a deleted entry")
+		}
+		return model.BuildHeader(ts, 3, 1, ext, left)
+	}
+	return model.BuildHeader(ts, 3, 0, ext, []byte(fmt.Sprintf("v%d", salt)))
 }
 
 type c13State struct {
